@@ -35,8 +35,10 @@ def check(ctx):
         "sort_by_order(cls, elts, name, ordering) and nothing re-orders its result (R1); at every element construction the "
         "`name` is the Python name (field.name / func.__name__, never the alias) and the ordering is the element's own "
         "`.ordering`, fields are added before methods (R2); get_order_overriding gives precedence to the most derived class and "
-        "sort_by_order consults the override before the element's ordering (R3). Not decided: that sort_by_order computes the "
-        "documented permutation and never loses an element."
+        "sort_by_order consults the override before the element's ordering (R3); sort_by_order puts each element in exactly one "
+        "bucket, guards the by-name buckets with membership in the element names, never re-buckets, drains groups in ascending "
+        "order value and emits before-elements, the element, after-elements (R4: conservation and the shape of the permutation). "
+        "Not decided: cyclic after/before specifications (user error), equality of the permutation for every specification."
     )
     ctx.rule("C16.R1", "each view orders its elements with sort_by_order and does not re-order the result", floor=3)
     for q, what in SITES:
@@ -202,6 +204,11 @@ def check(ctx):
                 ctx.check(ok, "C16.R4", f"{sb.qualname}:{b}[{key}]", c,
                           f"`{short(c, 60)}`: bucket `{b}` is only read under the name of an element being emitted; when `{key}` is not the name of an element of this view (a serialized method in the deserialization view) the element is never emitted: the field disappears from the schema / GraphQL type",
                           sb, c, detail=f"guarded by `{key} in <names of all elements>`")
+    # groups: default order value 0, explicit value as key, drained in ascending order
+    keys = {norm(r.slice) for c, r, recv in buckets.get("groups", [])}
+    ctx.check(keys == {"0", "ordering.order"}, "C16.R4", f"{sb.qualname}:group-keys", loop, f"elements are grouped under {sorted(keys)}: expected the default value 0 and the element's own order value", sb, loop, detail="groups[0] / groups[ordering.order]")
+    drains = [n for st in rest for n in ast.walk(st) if isinstance(n, ast.For) and "groups" in norm(n.iter) and not isinstance(n.iter, ast.Subscript)]
+    ctx.check(len(drains) == 1 and norm(drains[0].iter) == "sorted(groups)", "C16.R4", f"{sb.qualname}:ascending", drains[0] if drains else fn.body[-1], "groups are not drained in ascending order value (`sorted(groups)`)", sb, drains[0] if drains else fn, detail="for value in sorted(groups)")
     # no re-bucketing between classification and traversal
     for st in rest:
         for n in ast.walk(st):
@@ -237,6 +244,8 @@ def check(ctx):
 
 def mutants(mb):
     O = "apischema/ordering.py"
+    mb.add_text("groups-descending", O, "    for value in sorted(groups):", "    for value in sorted(groups, reverse=True):", "C16.R4", "ascending")
+    mb.add_text("default-group-one", O, "        if ordering is None:\n            groups[0].append(elt)", "        if ordering is None:\n            groups[1].append(elt)", "C16.R4", "group-keys")
     mb.add_text("after-target-unguarded", O, "            (after[target] if target in names else groups[0]).append(elt)", "            after[target].append(elt)", "C16.R4", "after[target]")
     mb.add_text("names-from-groups-only", O, "    names = set(map(name, elts))\n", "    names = set()\n", "C16.R4", "[target]")
     mb.add_text("emitter-order-swapped", O, "        for before_elt in before[elt_name]:\n            add_to_result(before_elt)\n        result.append(elt)\n", "        result.append(elt)\n        for before_elt in before[elt_name]:\n            add_to_result(before_elt)\n", "C16.R4", "emitter-order")
